@@ -211,6 +211,11 @@ func runWithRestarts(sc *Scenario, dbPath string, restarts []uint32) (SyncResult
 		}
 		n, err := OpenNode(dbPath, sc.Era, sc.Chain, NodeOpts{})
 		if err != nil {
+			if i > 0 {
+				// the same build, the same configuration, a database it wrote itself: a refusal to
+				// start depends on nothing but where the daemon was stopped
+				return res, nil, fmt.Errorf("restart-refused: the daemon stopped cleanly after height %d does not start again: %v", stops[i-1], err)
+			}
 			return res, nil, err
 		}
 		if n.P.Sync.Synced < target {
@@ -258,6 +263,9 @@ func checkRestart(c *restartCase) string {
 	}
 	r1, d1, err := runWithRestarts(c.Sc, dir+"/rst", c.Restarts)
 	if err != nil {
+		if strings.HasPrefix(err.Error(), "restart-refused:") {
+			return strings.TrimPrefix(err.Error(), "restart-refused: ") + " (the continuous run reached the tip)"
+		}
 		return "harness: " + err.Error()
 	}
 	if !r1.OK(c.Sc.Chain.Tip) {
@@ -305,6 +313,18 @@ func TestC09(t *testing.T) {
 			} else {
 				rs = append(rs, sc.Chain.Start+uint32(rapid.IntRange(1, int(sc.Chain.Tip-sc.Chain.Start)).Draw(rt, "rh")))
 			}
+		}
+		// a third of the chains carry a hard fork inside them (synced by an adequate build throughout):
+		// what a restarted process reads back about fork heights must not depend on where it restarts —
+		// in particular right below, at and right above the fork height
+		if sc.Chain.Tip > sc.Chain.Start+4 && rapid.IntRange(0, 2).Draw(rt, "forkInside") == 0 {
+			f := sc.Chain.Start + uint32(rapid.IntRange(2, int(sc.Chain.Tip-sc.Chain.Start)-1).Draw(rt, "forkAt"))
+			e := sc.Era
+			e.Forks = []Fork{{Height: 0, MinVer: -1}, {Height: f, MinVer: 1}}
+			e.SyncVersion = 1 + rapid.IntRange(0, 1).Draw(rt, "build")
+			sc.Era = e
+			rs = append(rs, f-2+uint32(rapid.IntRange(0, 3).Draw(rt, "forkRestart")))
+			st.Label("fork-inside-chain")
 		}
 		c := &restartCase{Sc: sc, Restarts: rs}
 		nt := ""
